@@ -478,6 +478,19 @@ def contains_nonfinite(v):
     return False
 
 
+def sanitize(x):
+    """Replaces integers too large for str()/repr() (CPython's int digit limit) by a printable marker, consistently."""
+    if isinstance(x, int) and not isinstance(x, bool) and x.bit_length() > 10000:
+        return "<int of %d bits>" % x.bit_length()
+    if isinstance(x, list):
+        return [sanitize(i) for i in x]
+    if isinstance(x, tuple):
+        return tuple(sanitize(i) for i in x)
+    if isinstance(x, dict):
+        return {k: sanitize(v) for k, v in x.items()}
+    return x
+
+
 def evaluate_body(world, body, rfc_ok=None):
     """Runs one body through the real dispatcher and the model.
 
@@ -506,13 +519,18 @@ def evaluate_body(world, body, rfc_ok=None):
         reply = world.run(body)
     except Exception as ex:
         raised = ex
-    got_log = list(world.log)
+    got_log = sanitize(list(world.log))
     if body == "":
         # documented special case: loads("") is None -> 'no request data' (-32600); -32700 equally acceptable
         shape, exps, exp_log, info = "single", [Exp(None, "error", [-32600, -32700], why="empty body")], [], {
             "notifications": 0, "rejected": 1, "parse_error": True}
     else:
         shape, exps, exp_log, info = expect(world, std_ok, parsed)
-    viols = judge(world, body, reply, raised, shape, exps, exp_log, info, got_log)
+    exp_log = sanitize(exp_log)
+    for x in exps:
+        x.rid = sanitize(x.rid)
+        if x.value is not ABSENT:
+            x.value = sanitize(x.value)
+    viols = judge(world, body if len(body) < 2000 else body[:2000] + "...(%d characters)" % len(body), reply, raised, shape, exps, exp_log, info, got_log)
     label = "%s/%s" % (shape, ",".join(sorted({(x.kind if x.kind == "result" else str(sorted(x.codes)[0])) for x in exps})) or "-")
     return viols, label, True
